@@ -49,7 +49,21 @@ fn setup(case: &Value, seed: u64) -> Result<Setup, Obj> {
     let mut layouts = Vec::new();
     for (i, v) in devs.iter().enumerate() {
         match device_layout(v, i) {
-            Ok(l) => layouts.push(l),
+            Ok(mut l) => {
+                // "mailbox_size": a CoE device with smaller mailboxes (long objects then take many segments)
+                let mbx = get_u64(v, "mailbox_size", 0) as u16;
+                if l.coe && (16..=128).contains(&mbx) {
+                    if let Some(m) = l.desc.mailbox.as_mut() {
+                        m.recv_size = mbx;
+                        m.send_size = mbx;
+                        m.bootstrap[1] = mbx;
+                        m.bootstrap[3] = mbx;
+                    }
+                    l.desc.sync_managers[0].length = mbx;
+                    l.desc.sync_managers[1].length = mbx;
+                }
+                layouts.push(l)
+            }
             Err(why) => return Err(unsupported(case, &format!("device {i}: {why}"))),
         }
     }
@@ -61,7 +75,17 @@ fn setup(case: &Value, seed: u64) -> Result<Setup, Obj> {
     let devices = layouts
         .iter()
         .enumerate()
-        .map(|(i, l)| build_device(&format!("dev{i}"), &l.desc, l.dc, l.sii8))
+        .map(|(i, l)| {
+            let mut dev = build_device(&format!("dev{i}"), &l.desc, l.dc, l.sii8);
+            // "big_object": N printable bytes at 0x2100:0 (read with "read_as": "str1024")
+            let n = get_u64(&devs[i], "big_object", 0) as usize;
+            if n > 0 {
+                if let Some(coe) = dev.mailbox.as_mut().and_then(|m| m.coe.as_mut()) {
+                    coe.od.insert((0x2100, 0), (0..n.min(1024)).map(|k| b'A' + ((k * 7 + i) % 26) as u8).collect());
+                }
+            }
+            dev
+        })
         .collect();
     let mut seg = Segment::line(devices);
     for i in 0..seg.devices.len() {
@@ -234,6 +258,7 @@ fn make_task<'a>(
                     let r = match read_as {
                         "u8" => sd.sdo_read::<u8>(index, sub).await.map(|v| v.to_le_bytes().to_vec()),
                         "u16" => sd.sdo_read::<u16>(index, sub).await.map(|v| v.to_le_bytes().to_vec()),
+                        "str1024" => sd.sdo_read::<heapless::String<1024>>(index, sub).await.map(|v| v.as_bytes().to_vec()),
                         "str32" => sd.sdo_read::<heapless::String<32>>(index, sub).await.map(|v| v.as_bytes().to_vec()),
                         _ => sd.sdo_read::<u32>(index, sub).await.map(|v| v.to_le_bytes().to_vec()),
                     };
